@@ -131,7 +131,7 @@ func runC08(t *testing.T, s *kit.Session, c c08Case) *kit.Failure {
 	}
 	var checkpoints []checkpoint
 
-	model := &kit.Model{W: &w, Opts: kit.ModelOptions{PropagationUnverified: true}}
+	model := &kit.Model{W: &w, Opts: kit.ModelOptions{}}
 	// cached run
 	rsl.VerifResetCache()
 	st := kit.NewMemStore()
